@@ -87,4 +87,32 @@ CLAIMS = {
                 "loaders are not controlled. Error messages are not compared.",
         "technique": "differential property-based testing + enumerated coroutine interleavings (Hypothesis)",
     },
+    "C19": {
+        "level": "Generated-input search (Hypothesis-seeded generators): ~120k (quick) / 6M (thorough) law instances over "
+                 "~60 filters - permutation/order/stability of sort, sort_natural, sort_numeric, reverse; uniq, compact, "
+                 "where/reject partition, find/find_index/has consistency, string-key vs lambda agreement, map, sum, "
+                 "first/last/slice/concat/join definitions, split/join, url_encode/url_decode, base64 and "
+                 "escape/escape_once inverse/idempotence laws, independent string definitions, exact integer and "
+                 "decimal arithmetic - each applied at template level (result read back through json) and directly "
+                 "through env.filters. Exploration only.",
+        "design_ref": "DESIGN.md §3 C19",
+        "note": "Reference definitions in lv/model/c19_model.py are written from docs/filter_reference.md + CTS only; "
+                "clauses the docs do not determine (listed in the module's assumptions) are not asserted. Hypothesis "
+                "draws one seed per case for a private PRNG (element-wise draws were 8x slower), so shrinking reduces "
+                "size and seed only.",
+        "technique": "property-based testing of algebraic laws and reference definitions (Hypothesis)",
+    },
+    "C04": {
+        "level": "Generated-input search (Hypothesis + enumeration): ~20k random + 19.5k enumerated programs per quick run "
+                 "under Environment(auto_escape=True) (default and Shopify registries): filter chains of length <= 5 over "
+                 "every filter with tainted left values and tainted arguments, wrapped in captures, partials, macros, "
+                 "loops, template strings, ternaries, translate tag/filters, block.super, tablerow; data strings are "
+                 "<TAG>&TAG'TAG\" with unique tags. Oracle: no data-originated < > ' \" & reaches the output unescaped "
+                 "(origin confirmed by re-rendering with the character swapped in the data), with a positive control "
+                 "({{ ctl | safe }}) in every case. Exploration only.",
+        "design_ref": "DESIGN.md §3 C04",
+        "note": "Literals are drawn from an alphabet disjoint from HTML-significant characters and entity letters; engine "
+                "markup (<br />, tablerow tags) is removed before scanning.",
+        "technique": "property-based taint testing with metamorphic origin confirmation (Hypothesis)",
+    },
 }
